@@ -4,11 +4,11 @@ import struct
 from impl import *  # noqa
 
 ID = "C04"
-PROOF_MODULES = ["VncProofs.C04"]
+PROOF_MODULES = ["VncProofs.C04", "VncProofs.C13Cli"]
 THEOREMS = ["Vnc.C04_keymap", "Vnc.C04_keymap_nodup", "Vnc.C04_special", "Vnc.C04_name", "Vnc.C04_char",
             "Vnc.C04_decode_single", "Vnc.C04_decode_minus", "Vnc.C04_decode_chord", "Vnc.C04_valid_keysym",
             "Vnc.C04_op_writes", "Vnc.C04_reject", "Vnc.C04_wire", "Vnc.C04_forcecaps", "Vnc.C04_type",
-            "Vnc.C04_type_flat", "Vnc.C04_typefile"]
+            "Vnc.C04_type_flat", "Vnc.C04_typefile", "Vnc.C04_cli_forcecaps"]
 TRUSTED = [
     "Lean 4.33 kernel; standard axioms only",
     "KEYMAP / SPECIAL_KEYS_US are re-extracted from the live module on every run; C04_keymap (decide) compares them with the X11 table of VncSpec/Keys.lean in the kernel",
@@ -128,6 +128,36 @@ def run(ctx):
             ctx.violate("key-events", {"input": {"op": op, "force_caps": fc, "key": key, "elements": [list(e) for e in es]},
                                        "impl": got, "spec": sout[i],
                                        "how": "VNCDoToolClient.%s(key) on an in-memory transport vs VncSpec/Keys.lean (via vncdrv speckey)" % OPS[op]})
+    # --force-caps as the user gives it, alone and combined with every other flag option, through the real vncdo() command line
+    import itertools
+    from appgen import Vncdo
+    from appsession import Workdir
+    from rfbgen import server_init
+    with Workdir():
+        for nocursor, localcursor, noresize, inc in itertools.product([False, True], repeat=4):
+            for fc in (True, False):
+                v = Vncdo(["key", "A", "key", "a", "type", "Hi!"], force_caps=fc, nocursor=nocursor, localcursor=localcursor, no_desktop_resize=noresize, incremental=inc)
+                try:
+                    if v.factory is None:
+                        continue
+                    v.connect()
+                    tk = v.feed(b"RFB 003.008\n" + bytes([1, 1]) + struct.pack("!I", 0) + server_init(4, 4, vclient.RGB32, b"x"))
+                    ws = [bytes.fromhex(t[2:]) for t in tk if t.startswith("w:")]
+                    keys_ = [(struct.unpack("!BBxxI", w_)[1], struct.unpack("!BBxxI", w_)[2]) for w_ in ws if len(w_) == 8 and w_[0] == 4]
+                    sh = 0xFFE1
+
+                    def press(k, caps):
+                        return [(1, sh), (1, k), (0, k), (0, sh)] if caps else [(1, k), (0, k)]
+                    want = press(0x41, fc) + press(0x61, False) + press(ord("H"), fc) + press(ord("i"), False) + press(ord("!"), fc)
+                    ctx.count("cli_force_caps_combinations")
+                    ctx.case(None, key=("cli-fc", fc, nocursor, localcursor, noresize, inc))
+                    if keys_ != want:
+                        ctx.violate("key-events-cli-force-caps", {"input": {"command_line": "vncdo" + (" --force-caps" if fc else "") + (" --nocursor" if nocursor else "") + (" --localcursor" if localcursor else "") +
+                                                                            (" --disable-desktop-resizing" if noresize else "") + (" -i" if inc else "") + " key A key a type Hi!"},
+                                                                  "impl": repr(keys_), "spec": repr(want),
+                                                                  "how": "the real vncdo() entry point with an in-memory transport; (down, keysym) of every KeyEvent written"})
+                finally:
+                    v.close()
     # type / typefile expansion through the real build_command_list (command.py)
     from vncdotool import command
     from unittest import mock
